@@ -1,6 +1,7 @@
 SPECIFICATION Spec
 CONSTANTS
   Modes = {"frame", "life"}
+  MaxEntries = 3
   ExportScripts = FALSE
 VIEW View
 CHECK_DEADLOCK FALSE
